@@ -100,14 +100,14 @@ class ComputeRun:
     def prover(self, timeout_ms=20000):
         return field.Prover(self.hyps, self.facts, timeout_ms=timeout_ms)
 
-    def spec(self, pair_scale=1):
+    def spec(self, pair_scale=1, details=None):
         """the published update on the same symbols (evaluated in this run's context)"""
         from ..symrt import set_cur
         set_cur(self.ctx)
         try:
             X = game.SymX(self.tm)
             return WS.posterior(self.model, self.prior, self.ranks, self.params["beta"], self.params["kappa"], X,
-                                gamma=self.gamma_spec, pair_scale=pair_scale)
+                                gamma=self.gamma_spec, pair_scale=pair_scale, details=details)
         finally:
             self.facts = list(self.ctx.facts.values())
             set_cur(None)
@@ -152,3 +152,46 @@ def ge_rec(name, res, fn, shape, replay=None, kind="post"):
     verdict, backend, note, t, model = res
     return driver.rec(name, verdict, backend, t, kind=kind, fn=fn, shape=shape, mode="R",
                       replay=None if verdict == "discharged" else replay, note=note)
+
+
+def scale_of(model):
+    """pair scale with which the code equals the published update (K1: 2 for TM-partial)"""
+    return 2 if model == "ThurstoneMostellerPart" else 1
+
+
+def link(run, P=None, which=("mu", "sigma")):
+    """obligation `_compute == published update` for this run (exact normal forms).
+    Returns (ok, note, seconds, spec, details, prover)."""
+    P = P or run.prover()
+    det = {}
+    spec = run.spec(pair_scale=scale_of(run.model), details=det)
+    post = run.post()
+    t0 = time.time()
+    ok = True
+    notes = []
+    for i in range(len(run.sizes)):
+        for j in range(run.sizes[i]):
+            for k, nm in ((0, "mu"), (1, "sigma")):
+                if nm not in which:
+                    continue
+                o, be, note, t = P.prove_eq(term(post[i][j][k]), term(spec[i][j][k]))
+                if not o:
+                    ok = False
+                    notes.append(f"{nm}[{i},{j}]: {note}")
+    return ok, "; ".join(notes)[:300], time.time() - t0, spec, det, P
+
+
+def generic_lemma(name, build, fn="lemma", timeout_ms=20000):
+    """a shape-independent lemma over fresh reals, discharged once by z3:
+    build() -> (hypotheses, goal)"""
+    from .. import tactics
+    t0 = time.time()
+    hyps, goal = build()
+    r, be, m, why = tactics.check_sat(list(hyps) + [z3.Not(goal)], timeout_ms=timeout_ms)
+    return driver.rec(name, "discharged" if r == "unsat" else ("refuted" if r == "sat" else "open"), be, time.time() - t0,
+                      fn=fn, mode="R", unbounded=True, note=why)
+
+
+def sqrt_inst(r, y):
+    """A-sqrt instance for r = sqrt(y)"""
+    return [z3.Implies(y >= 0, z3.And(r >= 0, r * r == y))]
